@@ -75,8 +75,11 @@ def main():
     props = [c["property_id"] for c in checks]
     with open(os.path.join(ROOT, "lean", "Sdmmc.lean"), "w") as f:
         f.write("-- Root of the `Sdmmc` library: model, specifications, lemmas, property theorems, driver.\n-- (generated by tools/mkmanifest.py)\nimport Sdmmc.Driver\n")
+        import re
+        d = os.path.join(ROOT, "lean", "Sdmmc", "Props")
         for p in props:
-            f.write(f"import Sdmmc.Props.{p}\n")
+            for st in sorted(x[:-5] for x in os.listdir(d) if x.endswith(".lean") and re.fullmatch(re.escape(p) + r"[A-Za-z_]*", x[:-5])):
+                f.write(f"import Sdmmc.Props.{st}\n")
     print("claimed:", " ".join(props))
 
 
